@@ -333,6 +333,14 @@ def step (w : World) (line : String) : World × String :=
   | "relabel" => (match parseRen (a 2) with
     | some ρ => let r := relabelOp w h ρ; (r.2, res (fun m => pSet (m.map (fun p => s!"{pName p.1}:{pName p.2}"))) r.1)
     | none => (w, "err ren"))
+  | "relabel1" => (match parseName (a 2), parseName (a 3) with
+    | some x, some q => let r := relabelOneOp w h x q; (r.2, resU r.1)
+    | _, _ => (w, "err args"))
+  | "delsorder" => (match parseNat (a 2) with
+    | some k =>
+      let ss := match w.obj? h with | some o => (o.c.ofOrder k).map (·.name) | none => []
+      let r := deleteManyOp w h ss; (r.2, resU r.1)
+    | none => (w, "err k"))
   | "relabeldisj" =>
     let r := relabelDisjointOp w h (t.getD 2 ""); (r.2, res (fun m => pSet (m.map (fun p => s!"{pName p.1}:{pName p.2}"))) r.1)
   | "setattr" => (match parseName (a 2), optCell w (a 3) with
